@@ -336,14 +336,14 @@ class Evaluator:
             base = self.expr(e.value, env, f, depth)
             lo = self.expr(e.slice.lower, env, f, depth) if e.slice.lower is not None else None
             hi = self.expr(e.slice.upper, env, f, depth) if e.slice.upper is not None else None
-            if isinstance(base, (str, list, tuple)) and all(x is None or isinstance(x, int) for x in (lo, hi)) \
-                    and e.slice.step is None:
-                return base[lo:hi]
+            st = self.expr(e.slice.step, env, f, depth) if e.slice.step is not None else None
+            if isinstance(base, (str, list, tuple)) and all(x is None or isinstance(x, int) for x in (lo, hi, st)):
+                return base[lo:hi:st]
             raise AnalysisError("slice of an abstract value not supported (%s)" % f.loc(e))
         if isinstance(e, ast.Subscript):
             base = self.expr(e.value, env, f, depth)
             idx = self.expr(e.slice, env, f, depth)
-            if isinstance(base, (tuple, list, dict)) and not isinstance(idx, (Opaque, Sym)):
+            if isinstance(base, (tuple, list, dict, str)) and not isinstance(idx, (Opaque, Sym)):
                 try:
                     return base[idx]
                 except (KeyError, IndexError):
@@ -463,6 +463,8 @@ class Evaluator:
             if fn.id in ("any", "all") and args and isinstance(args[0], (list, tuple)):
                 vals = [self.truth(x, e) for x in args[0]]
                 return any(vals) if fn.id == "any" else all(vals)
+            if fn.id == "range" and args and all(isinstance(a, int) for a in args):
+                return list(range(*args))
             if fn.id in ("list", "tuple") and args and isinstance(args[0], (list, tuple)):
                 return list(args[0]) if fn.id == "list" else tuple(args[0])
             if fn.id == "str" and args:
@@ -529,6 +531,12 @@ class Evaluator:
                 bound["*"] = tuple(star)
             selfenv = {k: v for k, v in env.items() if k.startswith("self.")}
             return self.call(t, bound, selfenv, depth + 1)
+        if isinstance(fn, ast.Attribute) and fn.attr in ("search", "match", "fullmatch") and args and isinstance(args[0], str):
+            rx = self.expr(fn.value, env, f, depth)
+            if isinstance(rx, tuple) and len(rx) == 2 and rx[0] == "re" and isinstance(rx[1], str):
+                import re as _re
+                m = getattr(_re.compile(rx[1]), fn.attr)(args[0])
+                return None if m is None else {"start()": m.start(), "end()": m.end(), "group()": m.group()}
         if isinstance(fn, ast.Attribute) and fn.attr in ("format", "join", "upper", "lower", "strip"):
             return Opaque("str")
         if isinstance(fn, ast.Attribute) and fn.attr in ("startswith", "endswith") and args:
